@@ -124,6 +124,12 @@ func (eng *Engine) loadNoEffect(path string) error {
 			onlyOK := strings.HasPrefix(line, "bumpok:")
 			onlyTrue := strings.HasPrefix(line, "bumptrue:") // count only calls returning true
 			f := strings.Fields(strings.TrimPrefix(strings.TrimPrefix(strings.TrimPrefix(line, "bumptrue:"), "bumpok:"), "bump:"))
+			// optional third field in=<pkg dir>: only calls made by functions of that package are counted
+			in := ""
+			if len(f) == 3 && strings.HasPrefix(f[2], "in=") {
+				in = strings.TrimPrefix(f[2], "in=")
+				f = f[:2]
+			}
 			if len(f) != 2 {
 				return fmt.Errorf("%s: malformed bump: line %q", path, line)
 			}
@@ -131,8 +137,10 @@ func (eng *Engine) loadNoEffect(path string) error {
 			if err != nil {
 				return fmt.Errorf("%s: %v", path, err)
 			}
-			eng.bumpRe = append(eng.bumpRe, pureSpec{name: f[0], re: re, onlyOK: onlyOK, onlyTrue: onlyTrue})
-			eng.argsOnlyRe = append(eng.argsOnlyRe, re)
+			eng.bumpRe = append(eng.bumpRe, pureSpec{name: f[0], re: re, onlyOK: onlyOK, onlyTrue: onlyTrue, in: in})
+			if in == "" {
+				eng.argsOnlyRe = append(eng.argsOnlyRe, re)
+			}
 			continue
 		}
 		argsOnly := false
@@ -727,6 +735,7 @@ type pureSpec struct {
 	re     *regexp.Regexp
 	onlyOK bool // bumpok: count only calls returning a nil error
 	onlyTrue bool // bumptrue: count only calls returning true
+	in       string // count only calls made by functions of this package directory ("" = everywhere)
 }
 
 func (eng *Engine) ghostVarNamed(name string) bool {
